@@ -29,8 +29,14 @@ type PropCfg struct {
 	Level    string   `json:"level"`    // proof | other
 	Bounded  []string `json:"bounded"`  // descriptions of bounded stand-ins (never counted as proved)
 	Undecided []string `json:"undecided"` // clauses of the property this family does not decide
+	CallScan  []CallScanCfg  `json:"call_scan"`  // functions that only the listed functions (and helpers inlined into them) may call: their `at call` assertions cover every call
 	FrameScan []FrameScanCfg `json:"frame_scan"` // fields that only the listed functions may store to
 	AlwaysReplay bool  `json:"always_replay"` // the harness carries a bounded stand-in: run it on every check
+}
+
+type CallScanCfg struct {
+	Callee  string   `json:"callee"`
+	Allowed []string `json:"allowed"`
 }
 
 type FrameScanCfg struct {
@@ -399,6 +405,16 @@ func cmdCheck(args []string) int {
 		users := p.UseScan(fsc.Struct, fsc.Field)
 		bad := p.UnlistedUsers(users, allowed)
 		o := vc.ScanObligation(fmt.Sprintf("usescan(%s.%s)", fsc.Struct, fsc.Field), fmt.Sprintf("only %v and helpers inlined into them use %s.%s (found: %v)", fsc.Allowed, fsc.Struct, fsc.Field, users), len(bad) == 0, fmt.Sprintf("unlisted users: %v", bad))
+		obls = append(obls, o)
+	}
+	for _, csc := range cfg.CallScan {
+		allowed := map[string]bool{}
+		for _, a := range csc.Allowed {
+			allowed[a] = true
+		}
+		users := p.CallScan(csc.Callee)
+		bad := p.UnlistedUsers(users, allowed)
+		o := vc.ScanObligation(fmt.Sprintf("callscan(%s)", csc.Callee), fmt.Sprintf("only %v and helpers inlined into them call %s (found: %v)", csc.Allowed, csc.Callee, users), len(bad) == 0, fmt.Sprintf("unlisted callers: %v", bad))
 		obls = append(obls, o)
 	}
 	// global invariants rely on nobody storing to the globals they mention
